@@ -71,6 +71,19 @@ func runC02(c *Ctx) {
 	kr := newKeyring()
 	distinct := map[string]bool{}
 	kinds := append([]string{}, kindNames...)
+	// a caller that builds its own list from what ExpectedPrefixes returned (append to the returned slice) must not
+	// change the matrix for anybody: done first, and again before the Encode half
+	extendPrefixes := func() {
+		for _, cl := range []jwt.Claims{&jwt.OperatorClaims{}, &jwt.AccountClaims{}, &jwt.UserClaims{}, &jwt.ActivationClaims{},
+			&jwt.AuthorizationRequestClaims{}, &jwt.AuthorizationResponseClaims{}, &jwt.GenericClaims{}} {
+			for _, extra := range []nkeys.PrefixByte{nkeys.PrefixByteAccount, nkeys.PrefixByteOperator, nkeys.PrefixByteCluster, nkeys.PrefixByteServer, nkeys.PrefixByteUser} {
+				own := append(cl.ExpectedPrefixes(), extra) // (one element: lands in spare capacity when there is some)
+				own = append(cl.ExpectedPrefixes(), extra, extra)
+				_ = own
+			}
+		}
+	}
+	extendPrefixes()
 	for _, kind := range kinds {
 		for _, ir := range allRoles {
 			for _, sr := range allRoles {
@@ -167,6 +180,7 @@ func runC02(c *Ctx) {
 	if err == nil {
 		signers["curve"] = cv
 	}
+	extendPrefixes()
 	subjects := map[string]string{"none": "not-a-key", "empty": ""}
 	for _, r := range allRoles {
 		subjects[r] = kr.by[r].pub
